@@ -183,3 +183,10 @@ Definition mkdesc (acts : list (Z * string)) (pus : list Z) (asis : list (string
 
 (* float -> planning unit id conversion, checked against the running binary *)
 Definition conv_ok (f : fval) (id : Z) : bool := Z.eqb (pu_of_float f) id.
+
+Fixpoint conv_mismatches_from (i : nat) (l : list (fval * Z)) : list nat :=
+  match l with
+  | [] => []
+  | (f, id) :: l' => if conv_ok f id then conv_mismatches_from (S i) l' else i :: conv_mismatches_from (S i) l'
+  end.
+Definition conv_mismatches := conv_mismatches_from 0.
